@@ -146,6 +146,12 @@ fn amounts_for(t: &dyn QtyOps, from: usize, to: usize, cfg: &Cfg, rng: &mut Rng,
     for _ in 0..(if cfg.thorough { 8 } else { 2 }) {
         v.push(rnd_amount(rng, -20, 40));
     }
+    // binary floating point: amounts near the ends of the range, where an intermediate "amount in reference units"
+    // is no longer representable although operand and result are
+    #[cfg(not(feature = "dec"))]
+    if salt % 3 == 0 || cfg.thorough {
+        v.extend([3e297, -2.5e299, 7e-298]);
+    }
     v
 }
 
@@ -181,7 +187,7 @@ fn amount_pairs(t: &dyn QtyOps, ua: usize, ub: usize, cfg: &Cfg, rng: &mut Rng, 
             #[cfg(feature = "dec")]
             kks.extend([from_parts_dec(false, 3, -10), from_parts_dec(false, 7, 9)]);
             #[cfg(not(feature = "dec"))]
-            kks.extend([3e-170, 7e160, 3e-10]);
+            kks.extend([3e-170, 7e160, 3e-10, 3e296, 7e-297]);
         }
         for kk in kks {
             // equal by construction (in exact arithmetic): a = k*sb, b = k*sa ; a = k*(sb/sa), b = k ; a = k, b = k*(sa/sb)
